@@ -323,6 +323,7 @@ func runC05(r *engine.Run) {
 	frameHistory(r, 2)
 	cryptoHistory(r)
 	manySessions(r)
+	c05CommandValues(r)
 	r.Assume("keys are fixed distinguishing values; single-bit walks over all key bits are part of the tamper enumeration; data independence for opaque bytes")
 	r.Assume("canonical state = deep print of the real frame plus the model's abstract frame; equal deep prints are indistinguishable to every method")
 
